@@ -32,7 +32,8 @@ def run(tier, seed):
     def t_versions():
         v = versions.translate_versions()
         os.makedirs(dump, exist_ok=True)
-        with open(os.path.join(dump, "versions.txt"), "w") as f:
+        import common
+        with common.atomic_open(os.path.join(dump, "versions.txt")) as f:
             fn = dict(v["filename"])
             for (ident, val) in v["enum"]:
                 f.write("%d %s\n" % (val, fn.get(ident, "?")))
